@@ -55,7 +55,10 @@ def parsable_classes(concrete_only=True):
 def vector_classes():
     from cryptoparser.common.base import ArrayBase  # pylint: disable=import-outside-toplevel
     result = {}
+    from cryptoparser.common.base import OpaqueEnumParsable  # pylint: disable=import-outside-toplevel
     for name, cls in parsable_classes().items():
+        if issubclass(cls, OpaqueEnumParsable):
+            continue    # enum factories that reuse the Vector parser; not containers a caller edits
         if issubclass(cls, ArrayBase):
             try:
                 cls.get_param()
